@@ -91,9 +91,30 @@ impl<T: ObsOut> ObsOut for Option<T> {
         }
     }
 }
+/// a decimal text just above the midpoint of two neighbouring f32 values, closer to it than f64
+/// can tell (Casts.tla MID32): parsed as f32 it is 1.0000001, parsed as f64 and narrowed it is 1.0
+const MID32: i64 = 777006;
+const MID32_TEXT: &str = "1.0000000596046448";
+/// the text a string source carries for a value class (Casts.tla StrVals)
+fn str_text(v: i64) -> Option<String> {
+    Some(match v {
+        NULL => "None".to_string(),
+        HALF => "1.5".to_string(),
+        PINF => "inf".to_string(),
+        NINF => "-inf".to_string(),
+        MID32 => MID32_TEXT.to_string(),
+        BIG53 | NEGNAN => return None,
+        x => x.to_string(),
+    })
+}
 impl Mk for String {
     fn mk(v: i64) -> Option<Self> {
-        Some(if v == NULL { "None".to_string() } else { v.to_string() })
+        str_text(v)
+    }
+}
+impl Mk for &'static str {
+    fn mk(v: i64) -> Option<Self> {
+        str_text(v).map(|t| &*Box::leak(t.into_boxed_str()))
     }
 }
 impl ObsOut for String {
@@ -167,6 +188,15 @@ fn do_cast<F: Mk + Cast<T> + 'static, T: ObsOut + 'static>(v: i64) -> Option<Res
 
 /// what the language's own conversion gives for a numeric cast (the oracle for wrap / saturate)
 fn lang_cast(v: i64, from: &str, to: &str) -> Option<f64> {
+    if from == "string" {
+        // the language's own parse of the text into the target type (one rounding)
+        let text = str_text(v)?;
+        return match to.strip_prefix("opt_").unwrap_or(to) {
+            "f32" => text.parse::<f32>().ok().map(|x| x as f64),
+            "f64" => text.parse::<f64>().ok(),
+            _ => None,
+        };
+    }
     let x: f64 = match v {
         HALF => 1.5,
         PINF => f64::INFINITY,
@@ -231,7 +261,7 @@ fn build_table() -> Vec<(&'static str, &'static str, CastFn)> {
          ("string", String)]
     ));
     t.extend(table!(
-        [("string", String)]
+        [("string", String), ("string", &'static str)]
         x
         [("f32", f32), ("f64", f64), ("i32", i32), ("i64", i64), ("isize", isize), ("u8", u8), ("u64", u64), ("usize", usize),
          ("opt_f32", Option<f32>), ("opt_f64", Option<f64>), ("opt_i32", Option<i32>), ("opt_i64", Option<i64>),
@@ -274,6 +304,7 @@ fn vname(v: i64) -> String {
         NINF => "-inf".into(),
         BIG53 => "2^53+2^29+1".into(),
         NEGNAN => "-NaN".into(),
+        MID32 => format!("text {MID32_TEXT}"),
         x => x.to_string(),
     }
 }
